@@ -2,6 +2,8 @@
 
 from __future__ import annotations
 
+import json
+
 import numpy as np
 from hypothesis import strategies as st
 
@@ -16,7 +18,7 @@ BUDGET = {"quick": 640, "thorough": 16000}
 SHRINK = {"quick": True, "thorough": True}
 RULE = (
     "Hypothesis RuleBasedStateMachine per run: an initial configuration (ideal or single-phase reservoir, table, "
-    "pressure pair, nx 3..12, three strictly increasing time grids A, B (same length as A) and C (another length)) and "
+    "pressure pair, nx 3..12; half of the ideal reservoirs carry a fluid table so that density-mode recovery applies; three strictly increasing time grids A, B (same length as A) and C (another length)) and "
     "up to 12 rule applications from {simulate(A), simulate(B), simulate(C), recovery_factor(), "
     "recovery_factor(density=True), recovery_factor_interpolator() evaluated at generated times inside and outside "
     "the grid, repeat the previous call}. After every step the object under test is compared with a fresh "
@@ -26,6 +28,7 @@ RULE = (
 )
 ASSUMPTIONS = [
     "identical means numpy.array_equal (the computation is deterministic)",
+    "'repeating a call' covers any two identical calls within one simulation, also with other recovery calls in between (the interpolator follows the most recent recovery mode and is compared only while no recovery call intervenes)",
     "schedule-carrying simulate calls are not in the alphabet (the property's alphabet has none)",
     "calls made before any simulate must raise (any exception) and leave the object usable",
 ]
@@ -53,6 +56,9 @@ def config(draw):
             t = np.concatenate([[0.0], np.cumsum([draw(st.floats(1e-4, 2.0)) for _ in range(n - 1)])])
         return [float(x) for x in t + draw(st.sampled_from([0.0, 0.0, 0.5]))]
 
+    if base["cls"] == "ideal" and draw(st.booleans()):
+        # an IdealReservoir may be given a fluid table (the repository's tests do); density-mode recovery then works
+        base["ideal_fluid"] = {"table": draw(tables.table_spec(60, False)), "container": draw(st.sampled_from(["dict", "dataframe"]))}
     na = draw(st.integers(3, 25))
     nc = draw(st.integers(3, 25).filter(lambda v: v != na))
     base["grids"] = {"A": grid(na), "B": grid(na), "C": grid(nc)}
@@ -63,7 +69,44 @@ def make_object(cfg):
     case = dict(cfg)
     case["time"] = {"kind": "steps", "steps": [1.0], "start": 0.0}
     case["schedule"] = {"kind": "none"}
+    if cfg["cls"] == "ideal" and cfg.get("ideal_fluid"):
+        from bluebonnet.flow import FlowProperties, IdealReservoir
+
+        tab = tables.build(cfg["ideal_fluid"]["table"])
+        p = tab["pressure"]
+        p_i = float(p[-1])
+        p_f = float(p[0] + (cfg["p_f"] / cfg["p_i"]) * 0.9 * (p_i - p[0]))
+        fluid = core.lib("FlowProperties", FlowProperties, tables.as_container(tab, cfg["ideal_fluid"]["container"]), p_i)
+        return IdealReservoir(cfg["nx"], p_f, p_i, fluid)
     return flowcase.run(case, simulate=False).res
+
+
+def has_density(cfg):
+    return cfg["cls"] != "ideal" or bool(cfg.get("ideal_fluid"))
+
+
+def op_key(op):
+    return json.dumps(op)
+
+
+def epoch_repeat_check(history, results, res):
+    """Within one simulation epoch the same call with the same arguments returns the same result, whatever other
+    recovery / interpolator calls happened in between (the interpolator legitimately follows the most recent
+    recovery mode, so it is only compared while no recovery call intervenes)."""
+    seen = {}
+    for op, (status, value) in zip(history, results):
+        if op[0] == "sim":
+            seen = {}
+            continue
+        if op[0] in ("rf", "rfd"):
+            seen = {k: v for k, v in seen.items() if not k.startswith('["interp"')}
+        if status != "ok":
+            continue
+        k = op_key(op)
+        if k in seen and not same(seen[k], value):
+            res.bad("C10/repeat-gives-same-result", f"{op[0]} returns a different result than an earlier identical call in the same simulation (history {history})")
+            return
+        seen.setdefault(k, value)
 
 
 def apply_op(obj, op, cfg):
@@ -141,9 +184,12 @@ def run_history(cfg, history) -> Result:
     res = Result()
     obj = make_object(cfg)
     prev = None
+    results = []
     for i, op in enumerate(history):
         status, value = apply_op(obj, op, cfg)
+        results.append((status, value))
         compare_with_fresh(cfg, history[: i + 1], obj, status, value, res)
+        epoch_repeat_check(history[: i + 1], results, res)
         if i > 0 and history[i - 1] == op and op[0] != "sim" and prev is not None and prev[0] == "ok" and status == "ok":
             if not same(prev[1], value):
                 res.bad("C10/repeat-gives-same-result", f"repeating {op[0]} changed its result (history {history[: i + 1]})")
@@ -183,6 +229,7 @@ def run_worker(ctx: core.WorkerContext):
             self.pending = None  # (status, value) of the op just executed
             self.res = Result()
             self.prev = None
+            self.results = []
 
         @initialize(cfg=config())
         def setup(self, cfg):
@@ -192,7 +239,9 @@ def run_worker(ctx: core.WorkerContext):
         def _do(self, op):
             status, value = apply_op(self.obj, op, self.cfg)
             self.history.append(op)
+            self.results.append((status, value))
             self.pending = (status, value)
+            epoch_repeat_check(self.history, self.results, self.res)
             if len(self.history) > 1 and self.history[-2] == op and op[0] != "sim" and self.prev and self.prev[0] == "ok" and status == "ok":
                 if not same(self.prev[1], value):
                     self.res.bad("C10/repeat-gives-same-result", f"repeating {op[0]} changed its result (history {self.history})")
@@ -215,7 +264,7 @@ def run_worker(ctx: core.WorkerContext):
         def recovery_factor(self):
             self._do(["rf"])
 
-        @precondition(lambda self: self.cfg is not None and self.cfg["cls"] != "ideal")
+        @precondition(lambda self: self.cfg is not None and has_density(self.cfg))
         @rule()
         def recovery_factor_density(self):
             self._do(["rfd"])
